@@ -1482,6 +1482,8 @@ func c15(c *Ctx) {
 		}
 	}
 
+	// (6h) decoded-but-absurd transactions EXECUTED on a real node: pool, miner, deputy-signed block (c15_exec.go)
+	c15ExecChecks(c)
 	// (7) connection life cycle: deadline, proportion, back-pressure, floods, protocol handshake (c15_conn.go)
 	c15ConnChecks(c, dir)
 	// (8) T2 inventories + the child's results (c15_sites.go, c15_close.go)
